@@ -296,7 +296,7 @@ func runDonor(cmds []wcmd, cuts map[int]bool, st *cutStats) *donorRun {
 				st.applies++
 			}
 			after := instanceSigs(d.store())
-			renamed = renamed || reRegistered(sigs, after) || txnRenames(data)
+			renamed = renamed || reRegistered(sigs, after) || txnRenames(data, sigs)
 			sigs = after
 			names.note(d.store())
 		}
